@@ -133,7 +133,8 @@ ReturnKeys(m, n, h, x, c) ==
       \* executions, the result must be one of theirs
       cands == IF m.q # {} THEN m.q ELSE done
       Match(e) == m.x[e].ratt = n /\ m.x[e].reord = h /\ m.x[e].rx = x
-      ctxret == SpecModeOf(c) /\ m.cancelled /\ n = 0 /\ h = 0 /\ x = "canceled" IN
+      \* the caller's context ended: executeQuery may answer with the context's error itself
+      ctxret == m.cancelled /\ n = 0 /\ h = 0 /\ x = "canceled" IN
   (IF m.ret THEN {"multiple-results"} ELSE {})
   \cup (IF ctxret \/ \E e \in cands : Match(e) THEN {}
         \* right Iter (or both made by the executor) but not the last attempt's error
@@ -163,11 +164,12 @@ MonStep(m, evt, c) ==
          LET o == evt.x
              r1 == [r EXCEPT !.out = o, !.lerr = IF IsErr(o) THEN r.ord ELSE r.lerr,
                              !.lerrx = IF IsErr(o) THEN o ELSE r.lerrx,
-                             !.comp = (~IsErr(o) \/ c.pol.kind = "none"),
+                             \* a query not marked idempotent is complete after its only attempt
+                             !.comp = (~IsErr(o) \/ c.pol.kind = "none" \/ ~c.idem),
                              !.ratt = r.ord, !.reord = IF IsErr(o) THEN r.ord ELSE 0, !.rx = o] IN
          AddExec(SetX(m, r1), {})
     [] evt.ev = "allow" ->
-         LET r1 == [r EXCEPT !.alw = evt.x, !.comp = (evt.x = "no")]
+         LET r1 == [r EXCEPT !.alw = evt.x, !.comp = (evt.x = "no" \/ ~c.idem)]
              \* the documented budget policies: NumRetries = number of times to retry
              keys == IF c.pol.kind = "budget" /\ ((evt.x = "yes") # (evt.n <= c.pol.n))
                      THEN {"retry-budget-miscounted"} ELSE {} IN
